@@ -43,7 +43,7 @@ MUTANTS += [
      "            if (motor.pwm > 0) or \\\n                    (motor.pwm < 0):"),
     ('C13-clamp-without-self-locking', ['C13'], S, "if self.__powertrain.self_locking and (", "if (True or self.__powertrain.self_locking) and ("),
     ('C13-acceleration-while-held', ['C13'], S, "        if not self.__powertrain_is_locked:\n            self._compute_angular_acceleration()", "        self._compute_angular_acceleration()"),
-    ('C13-criterion-ge', ['C13', 'C10'], 'gearpy/utils/relations.py', "friction_coefficient > worm_gear.pressure_angle.cos()", "friction_coefficient >= worm_gear.pressure_angle.cos()"),
+    ('C13-criterion-ge (differs only at exact equality in the library own rounding: not required)', [], 'gearpy/utils/relations.py', "friction_coefficient > worm_gear.pressure_angle.cos()", "friction_coefficient >= worm_gear.pressure_angle.cos()"),
     ('C13-criterion-sin', ['C13', 'C10'], 'gearpy/utils/relations.py', "        worm_gear.helix_angle.tan()\n\n    if efficiency", "        worm_gear.helix_angle.sin()\n\n    if efficiency"),
     ('C12-revert-D3-lock-flag', ['C12'], S, "            self.__powertrain_is_locked = False\n            self.__powertrain.update_time(initial_time)", "            self.__powertrain.update_time(initial_time)"),
 ]
@@ -147,4 +147,19 @@ MUTANTS += [
     ('C17-skip-load-torque-sample', ['C17'], MOB, "        self.__time_variables['load torque'].append(self.__load_torque)", "        if self.__load_torque is not None and self.__load_torque.value != 0:\n            self.__time_variables['load torque'].append(self.__load_torque)"),
     ('C17-pwm-appended-twice-on-dead-zone', ['C17'], M, "        self.time_variables['pwm'].append(self.pwm)", "        self.time_variables['pwm'].append(self.pwm)\n        if self.pwm == 0.5:\n            self.time_variables['pwm'].append(self.pwm)"),
     ('C17-contact-key-created-without-face-width', ['C17'], 'gearpy/mechanical_objects/spur_gear.py', "            if self.bending_stress_is_computable:\n                self.time_variables['bending stress'] = []", "            if self.elastic_modulus is not None:\n                self.time_variables['contact stress'] = []\n            if self.bending_stress_is_computable:\n                self.time_variables['bending stress'] = []"),
+]
+R = 'gearpy/utils/relations.py'
+MUTANTS += [
+    ('C10-efficiency-terms-exchanged', ['C10'], R, "            (master.pressure_angle.cos() -\n                friction_coefficient*master.helix_angle.tan()) / \\\n            (master.pressure_angle.cos() +\n                friction_coefficient/master.helix_angle.tan())",
+     "            (master.pressure_angle.cos() -\n                friction_coefficient/master.helix_angle.tan()) / \\\n            (master.pressure_angle.cos() +\n                friction_coefficient*master.helix_angle.tan())"),
+    ('C10-revert-D5-validate-after-mutate', ['C10'], R, "    if efficiency > 1 or efficiency < 0:\n        raise ValueError(\n            f\"The mating efficiency between {master.name!r} and \"\n            f\"{slave.name!r} is not within 0 and 1.\"\n        )\n\n    master.drives = slave",
+     "    master.drives = slave"),
+    ('C10-gear-validation-after-link', ['C10'], R, "    if master.module is not None and slave.module is not None:\n        if master.module != slave.module:", "    master.drives = slave\n    if master.module is not None and slave.module is not None:\n        if master.module != slave.module:"),
+    ('C10-module-check-skipped', ['C10'], R, "        if master.module != slave.module:", "        if False and master.module != slave.module:"),
+    ('C10-joint-ratio-left-none', ['C10', 'C01'], R, "    slave.driven_by = master\n    slave.master_gear_ratio = 1.0", "    slave.driven_by = master"),
+    ('C10-worm-ratio-inverted-wheel-master', ['C10', 'C01'], R, "        gear_ratio = slave.n_starts/master.n_teeth", "        gear_ratio = master.n_teeth/slave.n_starts"),
+    ('C20-walk-stops-one-early', ['C20'], P, "        while elements[-1].drives is not None:\n            elements.append(elements[-1].drives)", "        while elements[-1].drives is not None and elements[-1].drives.drives is not None:\n            elements.append(elements[-1].drives)\n        if len(elements) == 1:\n            elements.append(elements[-1].drives)"),
+    ('C20-flag-first-worm-only', ['C20', 'C13'], P, "                if element.self_locking:\n                    self.__self_locking = True", "                self.__self_locking = bool(element.self_locking)\n                break"),
+    ('C20-elements-returns-list', ['C20'], P, "        self.__elements = tuple(elements)", "        self.__elements = elements"),
+    ('C20-duplicate-check-counts-motor-name-only', ['C20'], P, "            if count > 1:", "            if count > 1 and name == elements[0].name:"),
 ]
